@@ -55,6 +55,8 @@ pub struct Wire {
     write_pending_left: Option<usize>,
     /// Number of write calls started (including failed ones).
     pub write_calls: usize,
+    /// Number of polls of write futures (including `Pending` ones).
+    pub write_polls: usize,
     /// Set when the halves are dropped by zlink.
     pub read_half_dropped: bool,
     pub write_half_dropped: bool,
@@ -185,6 +187,7 @@ impl WriteHalf for VWrite {
         }
         poll_fn(move |_cx| {
             let mut w = wire.borrow_mut();
+            w.write_polls += 1;
             match w.write_pending_left {
                 Some(n) if n > 0 => {
                     w.write_pending_left = Some(n - 1);
